@@ -212,6 +212,10 @@ class Binder:
 DefBinder = core.DefBinder
 
 
+def bvars(b):
+    return [b.q, b.r] if b.kind == "def" else [b.v]
+
+
 class Term:
     __slots__ = ("binders", "guard", "coef", "atom", "idx", "conj")
 
@@ -623,6 +627,14 @@ class SArr:
             if sidx is None:
                 raise Unsupported("slice store inside a generic loop iteration")
             self._loopstore(LoopStore(c.binders, c.__dict__.get("guards", []), sidx, LF.of(value), "="))
+            return
+        if isinstance(idx, SArr) and idx.dtype == BDT:
+            # a[mask] = scalar : elementwise if-then-else (mask has the array's shape)
+            if len(idx.shape) != len(self.shape) or isinstance(value, SArr):
+                raise Unsupported("boolean-mask store with a broadcast mask or an array value")
+            msnap = idx._snapshot()
+            v = LF.of(value)
+            self._set_elem(lambda k, old: LF._ite(SymBool(msnap(k).value().re != 0), v, old(k)))
             return
         shape, fmap = _index_map(self.shape, idx)
         tgt = self
@@ -1795,6 +1807,8 @@ def lf_equal_goals(a, b, tag="t"):
 
 def _unused(bnd, term, eqs):
     """the bound variable occurs nowhere but in its own range condition"""
+    if bnd.kind != "range":
+        return False
     v = bnd.v
     rc = bnd.range_cond()
     if any(_contains(i, v) for i in term.idx) or _contains(term.coef.re, v) or _contains(term.coef.im, v):
@@ -1809,6 +1823,9 @@ def _unused(bnd, term, eqs):
         if b.kind == "def":
             if _contains(b.a, v) or _contains(b.d, v):
                 return False
+        elif b.kind == "fdef":
+            if _contains(b.cons, v):
+                return False
         elif _contains(_lift(b.lo), v) or _contains(_lift(b.hi), v):
             return False
     for l, r in eqs:
@@ -1821,6 +1838,8 @@ def _rotation_rule(bnd, binders, eqs, ap):
     """v in [0, d),  r := (v + c) mod d,  r == e   <=>   v == (e - c) mod d  and  0 <= e < d
     (inverse of a cyclic rotation: numpy roll / fftshift / ifftshift index maps)"""
     if bnd.kind != "range" or not z3.is_true(z3.simplify(ap(_lift(bnd.lo)) == 0)):
+        return None, None
+    if bnd.hi is None:
         return None, None
     d = z3.simplify(ap(_lift(bnd.hi)))
     for D in binders:
@@ -1858,6 +1877,17 @@ def partial_eliminate(term, eqs):
             if z3.is_eq(gg) and gg.arg(0).sort() == z3.IntSort():
                 eqs.append((gg.arg(0), gg.arg(1)))
     for bnd in term.binders:
+        if bnd.kind == "fdef":
+            c2 = ap(bnd.cons)
+            if any(_contains(c2, v) for v in remaining):
+                remaining.append(bnd.v)
+                sigs[bnd.v.get_id()] = "def"
+                continue
+            # all arguments known: instantiate the witness globally (it exists and is unique)
+            nv = z3.Const(core.fresh_name(str(bnd.v).split("!")[0]), bnd.v.sort())
+            core.define(z3.substitute(c2, (bnd.v, nv)))
+            sub.append((bnd.v, nv))
+            continue
         if bnd.kind == "def":
             a2, d2 = ap(bnd.a), ap(bnd.d)
             if any(_contains(a2, v) or _contains(d2, v) for v in remaining):
@@ -1867,11 +1897,13 @@ def partial_eliminate(term, eqs):
             q2, r2 = core._divmod_global(a2, d2)
             sub += [(bnd.q, q2), (bnd.r, r2)]
             continue
+        if bnd.kind != "range":
+            continue
         sol = None
         pos = list(term.binders).index(bnd)
         later = []
         for bb in list(term.binders)[pos + 1:]:
-            later += [bb.q, bb.r] if bb.kind == "def" else [bb.v]
+            later += bvars(bb)
         for l, r in eqs:
             cand = _solve_for(ap(l), ap(r), bnd.v)
             if cand is not None and not any(_contains(cand, v) for v in remaining + later):
@@ -1976,7 +2008,7 @@ class Guard:
 def _mentions_binder(t):
     bs = []
     for b in cur().binders:
-        bs += [b.q, b.r] if b.kind == "def" else [b.v]
+        bs += bvars(b)
     if not bs:
         return False
     # derived loop variables (v = lo + t*step) mention the binder syntactically as well
@@ -2126,12 +2158,12 @@ def _injectivity_obligation(p):
     """a plain `=` store in a loop nest is a gather only if no two iterations write the same cell"""
     vs = []
     for b in p.binders:
-        vs += [b.q, b.r] if b.kind == "def" else [b.v]
+        vs += bvars(b)
     primed = [(v, z3.Int(str(v) + "'")) for v in vs]
     G = z3.And(*(list(p.guards) + [b.range_cond() for b in p.binders])) if (p.guards or p.binders) else z3.BoolVal(True)
     G2 = z3.substitute(G, *primed)
     same = z3.And(*[i == z3.substitute(i, *primed) for i in p.idx])
-    rng = [b.v for b in p.binders if b.kind != "def"]
+    rng = [b.v for b in p.binders if b.kind == "range"]
     eq = z3.And(*[v == z3.substitute(v, *primed) for v in rng])
     c = cur()
     c.side.append(("store-is-injective(=-not-accumulate)", c.hyps(), z3.Implies(z3.And(G, G2, same), eq)))
@@ -2401,3 +2433,102 @@ class _FFT(_NS):
 
 
 _Numpy.fft = _FFT()
+
+
+# ----------------------------------------------------------------------------- direct comparison of two comprehensions
+def reduce_term(term):
+    """apply the one-point rule where it applies (using the equalities inside the guard) and return an equivalent
+    Term whose remaining bound variables are re-expressed after substitution"""
+    sub = []
+    ap = lambda e: z3.substitute(e, *sub) if sub else e
+    eqs = []
+    for g in term.guard:
+        g = z3.simplify(g)
+        for gg in (g.children() if z3.is_and(g) else [g]):
+            if z3.is_eq(gg) and gg.arg(0).sort() == z3.IntSort():
+                eqs.append((gg.arg(0), gg.arg(1)))
+    new_binders, remaining = [], []
+    blist = list(term.binders)
+    for pos, bnd in enumerate(blist):
+        later = []
+        for bb in blist[pos + 1:]:
+            later += bvars(bb)
+        if bnd.kind == "fdef":
+            c2 = ap(bnd.cons)
+            if any(_contains(c2, v) for v in remaining):
+                new_binders.append(core.FnDef(bnd.v, c2))
+                remaining.append(bnd.v)
+            else:
+                nv = z3.Const(core.fresh_name(str(bnd.v).split("!")[0]), bnd.v.sort())
+                core.define(z3.substitute(c2, (bnd.v, nv)))
+                sub.append((bnd.v, nv))
+            continue
+        if bnd.kind == "def":
+            a2, d2 = ap(bnd.a), ap(bnd.d)
+            if any(_contains(a2, v) or _contains(d2, v) for v in remaining):
+                new_binders.append(core.DefBinder(bnd.q, bnd.r, a2, d2, ap(bnd.cons)))
+                remaining += [bnd.q, bnd.r]
+            else:
+                q2, r2 = core._divmod_global(a2, d2)
+                sub += [(bnd.q, q2), (bnd.r, r2)]
+            continue
+        sol = None
+        for l, r in eqs:
+            cand = _solve_for(ap(l), ap(r), bnd.v)
+            if cand is not None and not any(_contains(cand, v) for v in remaining + later):
+                sol = cand
+                break
+        if sol is None:
+            nb_ = Binder(bnd.v, Sym(ap(_lift(bnd.lo))) if bnd.lo is not None else None, Sym(ap(_lift(bnd.hi))) if bnd.hi is not None else None)
+            new_binders.append(nb_)
+            remaining.append(bnd.v)
+        else:
+            sub.append((bnd.v, sol))
+    guard = []
+    for g in term.guard:
+        g2 = z3.simplify(ap(g))
+        if not z3.is_true(g2):
+            guard.append(g2)
+    # range conditions of eliminated binders are already part of the guard (added when the term was built)
+    return Term(tuple(new_binders), tuple(guard), C(ap(term.coef.re), ap(term.coef.im)), term.atom, [z3.simplify(ap(i)) for i in term.idx], term.conj)
+
+
+def comprehension_goals(a, b):
+    """sufficient conditions for two linear forms (weighted edge comprehensions) to be equal: terms paired in order,
+    range variables paired in creation order (renamed), functionally defined variables (div/mod, ceil, floor) kept free
+    with their definitions as hypotheses; then guards equivalent, and under the guard equal atom index and weight.
+    returns list of (suffix, hyps, goal)"""
+    a, b = LF.of(a), LF.of(b)
+    out = [("const", [], z3.And(a.const.re == b.const.re, a.const.im == b.const.im))]
+    ta = [reduce_term(t) for t in a.terms]
+    tb = [reduce_term(t) for t in b.terms]
+    if len(ta) != len(tb):
+        return out + [("number-of-summations", [], z3.BoolVal(False))]
+    for n, (x, y) in enumerate(zip(ta, tb)):
+        if x.atom != y.atom or x.conj != y.conj or len(x.idx) != len(y.idx):
+            out.append(("term%d:same-input-array" % n, [], z3.BoolVal(False)))
+            continue
+        rx = [bb for bb in x.binders if bb.kind == "range"]
+        ry = [bb for bb in y.binders if bb.kind == "range"]
+        if len(rx) != len(ry):
+            out.append(("term%d:number-of-summation-variables" % n, [], z3.BoolVal(False)))
+            continue
+        ren = [(by.v, bx.v) for bx, by in zip(rx, ry)]
+        rn = lambda e: z3.substitute(e, *ren) if ren else e
+        defs = [bb.range_cond() for bb in x.binders if bb.kind != "range"] + [rn(bb.range_cond()) for bb in y.binders if bb.kind != "range"]
+        dset_x = [bb.range_cond() for bb in x.binders if bb.kind != "range"]
+        dset_y = [bb.range_cond() for bb in y.binders if bb.kind != "range"]
+
+        def core_guard(t, dset, ren_):
+            gs = []
+            for g in t.guard:
+                if any(g.eq(z3.simplify(d)) or g.eq(d) for d in dset):
+                    continue
+                gs.append(ren_(g))
+            return z3.And(*gs) if gs else z3.BoolVal(True)
+        gx = core_guard(x, dset_x, lambda e: e)
+        gy = core_guard(y, dset_y, rn)
+        out.append(("term%d:summation-ranges-equivalent" % n, defs, gx == gy))
+        out.append(("term%d:same-input-element" % n, defs + [gx], z3.And(*[i == rn(j) for i, j in zip(x.idx, y.idx)]) if x.idx else z3.BoolVal(True)))
+        out.append(("term%d:same-weight" % n, defs + [gx], z3.And(x.coef.re == rn(y.coef.re), x.coef.im == rn(y.coef.im))))
+    return out
